@@ -361,9 +361,9 @@ theorem mobasis_core_rejects_iff (c allow : Bool) (d : Obj) (hv : ∀ m, d.mo = 
           · rw [hr] at h; cases h
 
 /-- the electron count of the orbitals is not an integer (Molekel's `$CHAR_MULT` holds an integer charge):
-`occs` is set and `|Σ occs − round_half_even(Σ occs)| > 1e-7` (the double literal, compared exactly) -/
+`occs` is set and `|Σ occs − round_half_even(Σ occs)| > 1e-4` (the double literal, compared exactly) -/
 def FractionalNelec (m : MO) : Prop :=
-  ∃ o, m.occs = some o ∧ tol1em7 < absR (Orb.sum o - (roundHalfEven (Orb.sum o) : Int))
+  ∃ o, m.occs = some o ∧ tolNelec < absR (Orb.sum o - (roundHalfEven (Orb.sum o) : Int))
 
 theorem fractionalNelec_iff (m : MO) : fractionalNelec m = true ↔ FractionalNelec m := by
   unfold fractionalNelec FractionalNelec nelec
